@@ -254,6 +254,43 @@ def c12_queries(i1: int, i2: int, i3: int, o1: int, o2: int, o3: int, j: int, oj
     return bool(nc.is_perfect_consonant(f)) == perf and bool(nc.is_imperfect_consonant()) == imp and bool(nc.is_consonant(f)) == cons and bool(nc.is_dissonant(f)) == (not cons_nf)
 
 
+def c12_api_history(i1: int, i2: int, o1: int, o2: int, j: int, rm: int, form: int) -> bool:
+    """a history through the public API only (no directly built pre-state): two explicit additions, one removal
+    (by name / name and octave / Note / '-'), then a bare name, against the set model and the voicing rule"""
+    n1 = pick(POOL, i1)
+    n2 = pick(POOL, i2)
+    new = pick(POOL, j)
+    assume(_p(n1, o1) < _p(n2, o2))
+    nc = NoteContainer()
+    nc.add_note(n1, o1)
+    nc.add_note(Note(n2, o2))
+    model = [(n1, o1), (n2, o2)]
+    if _state(nc) != model:
+        return False
+    rm = enum(rm, 0, 2)
+    vn, vo = model[rm]
+    form = enum(form, 0, 4)
+    if form == 0:
+        nc.remove_note(vn)
+        model = [m for m in model if m[0] != vn]
+    elif form == 1:
+        nc.remove_note(vn, vo)
+        model = [m for m in model if not (m[0] == vn and m[1] == vo)]
+    elif form == 2:
+        nc.remove_note(Note(vn, vo))
+        model = [m for m in model if _p(*m) != _p(vn, vo)]
+    else:
+        nc - Note(vn, vo)
+        model = [m for m in model if _p(*m) != _p(vn, vo)]
+    if _state(nc) != model:
+        return False
+    if P.get("exclude_known", True) and model:
+        assume(not known_voicing([m[0] for m in model], [m[1] for m in model], new))
+    nc.add_note(new)
+    o = _m_bare_octave(model, new)
+    return _state(nc) == _m_add(model, new, o) and _inv(nc)
+
+
 def c12_eq_enharmonic(j1: int, j2: int, o1: int, o2: int) -> bool:
     """two containers holding the same pitch under different spellings are equal (both ways), and 'in' agrees.
     Engine premise discharged here: CrossHair models a set of objects by __eq__ alone, so when Note is hashable the
@@ -407,6 +444,8 @@ def claims(tier):
     if not q:
         for i0 in range(len(cpool)):
             cl.append(Claim("consonance4[%s]" % cpool[i0], c12_consonance, params={"pool": cpool, "k": 4, "i0": i0}, group="c12_consonance", pre=[lambda i1, i2, i3, i4: i1 == P["i0"] and 0 <= i2 < 6 and 0 <= i3 < len(P["pool"]) and 0 <= i4 < len(P["pool"])], timeout=3000, bounds="four-note containers, first name %s" % cpool[i0]))
+    for fm in range(4):
+        cl.append(Claim("api_history[form=%d]" % fm, c12_api_history, params={"fm": fm}, group="c12_api_history", pre=[lambda i1, i2, o1, o2, j, rm, form: 0 <= i1 < len(POOL) and 0 <= i2 < len(POOL) and 0 <= j < len(POOL) and 1 <= o1 <= 7 and 1 <= o2 <= 7 and 0 <= rm < 2 and form == P["fm"]], timeout=1200 if q else 3000, bounds="public API only: add (name, octave), add Note, remove one of the two (form %d of: name / name+octave / Note / '-'), add a bare name; 8-name pool, octaves symbolic 1..7" % fm))
     cl.append(Claim("eq_enharmonic", c12_eq_enharmonic, pre=[lambda j1, j2, o1, o2: 0 <= j1 < len(POOL_T) and 0 <= j2 < len(POOL_T) and 0 <= o1 <= 9 and 0 <= o2 <= 9], timeout=900 if q else 2400, bounds="two spellings from the 21-name pool (enumerated) with symbolic octaves 0..9 naming the same pitch: ==, != and 'in' both ways; hash consistency when Note is hashable"))
     cl.append(Claim("probe_add_bare", c12_add_bare, params={"k": 1, "pool": POOL_T, "exclude_known": False}, group="c12_add_bare", pre=[], probe_only=True))
     cl.append(Claim("probe_add_bare_list", c12_add_bare_list, params={"pool": POOL_T, "exclude_known": False}, group="c12_add_bare_list", pre=[], probe_only=True))
